@@ -31,7 +31,7 @@ theorem c15_sync_atomic (sem : TxSem) (cache : Store U B D)
   sync_fault_cases sem rowsU rowsS cache k
 
 /-- **Histories.**  For every history of save / delete / saveSigned / deleteSigned / tick /
-sync(fault?) operations from a well-formed state: right after a fault-free synchronisation,
+restart / sync(fault?) operations from a well-formed state: right after a fault-free synchronisation,
 and for as long as no further synchronisation runs, the cache equals the primary's content
 (users, unexpired signed records) at the moment of that synchronisation. -/
 theorem c15_history (s0 : State U B D) (h0 : s0.WF) (pre post : List (Op U B D)) (sem : TxSem)
@@ -129,6 +129,22 @@ theorem c15_outage_readonly :
   refine ⟨by decide, by decide, by decide, by decide, ?_, ?_⟩
   · intro c hc w; cases c <;> cases w <;> simp_all [classOK, handlerEffect]
   · intro c hc f; cases c <;> cases f <;> simp_all [classOK, handlerEffect]
+
+/-- **Restart.**  Every SQL statement that `initDB` (and what it calls synchronously) executes at
+start-up in the current source is harmless to existing rows (`create table if not exists`, additive
+schema changes) — so, for every cache content, starting the daemon again on the same data directory
+leaves the cache file's content untouched (`reopen`), in particular for the modelled `restart` step. -/
+theorem c15_restart_keeps_cache :
+    KM.Gen.C15.initStmts.all InitStmt.harmless = true ∧
+    (∀ (c : Store U B D), reopen KM.Gen.C15.initStmts c = c) ∧
+    (∀ (s : State U B D), (stepOp s .restart).cache = s.cache) := by
+  have h : KM.Gen.C15.initStmts.all InitStmt.harmless = true := by decide
+  exact ⟨h, fun c => reopen_harmless _ h c, fun s => rfl⟩
+
+/-- a start-up path that drops a cache table (the statement class `destructive`) loses the cache:
+non-vacuity of the `harmless` requirement -/
+example : reopen [.createIfNotExists .users, .destructive]
+    (⟨fun _ => some 1, fun _ => none⟩ : Store Nat Nat Nat) = Store.empty := rfl
 
 /-! ### the code as found -/
 
